@@ -113,6 +113,62 @@ Theorem C10_store_failure_refused : forall (f : fault) (st : store) (rq : req), 
   fst (handle f st rq) = Reset \/ fst (handle f st rq) = NotFound.
 Proof. exact fault_refuses. Qed.
 
+(** * The store changes while the request is served
+
+    The handler's store calls are separate calls; the syncer may append and the
+    pruner may delete between any two of them.  [handle_d f e rq] is the same
+    handler where [e : env] gives the store content seen by the next call as a
+    function of the kinds of calls that already returned — an arbitrary content
+    per call.  The quiescent [handle f st] above is the instance [e = fun _ => st]. *)
+
+Theorem C10_quiescent_is_instance : forall (f : fault) (st : store) (rq : req),
+  handle_d f (fun _ => st) rq = handle f st rq.
+Proof. exact static_is_instance. Qed.
+
+Theorem C10_changing_store_total : forall (f : fault) (e : env) (rq : req), fst (handle_d f e rq) <> Panic.
+Proof. exact handle_d_total. Qed.
+
+(** Bounded work whatever the store does meanwhile (any contents at all): still at
+    most one GetRange, from = origin, to <= origin + amount, to - from <=
+    min(amount, 64) — in particular a head that advances between HasAt and Head
+    can not make the clamp [to = head+1] grow the range. *)
+Theorem C10_changing_store_bounded_calls : forall (f : fault) (e : env) (o a : N), o < two64 -> a < two64 ->
+  let cs := range_calls (snd (handle_d f e (ROrigin o a))) in
+  (length cs <= 1)%nat /\
+  Forall (fun c => let '(from, to, _, _) := c in
+            from = o /\ o < to /\ to <= o + a /\ to - from <= N.min a max_req) cs.
+Proof. exact origin_bounded_calls_d. Qed.
+
+Theorem C10_changing_store_bounded_reads : forall (f : fault) (e : env) (o a : N),
+  (forall hist, wf_store (e hist)) -> o < two64 -> a < two64 ->
+  let rd := heights_read (snd (handle_d f e (ROrigin o a))) in
+  (forall n, In n rd -> o <= n /\ n < o + a)
+  /\ N.of_nat (length rd) <= N.min a max_req
+  /\ NoDup rd.
+Proof. exact origin_bounded_reads_d. Qed.
+
+(** Reply shape: NOT_FOUND, reset, or OK frames l, 1 <= |l| <= amount, that are
+    exactly the headers at origin, origin+1, ... of ONE content S the store had
+    during the request (the one GetRange saw), and |l| < amount only when l ends
+    at the head the store had when the server asked for it. *)
+Theorem C10_changing_store_reply_shape : forall (f : fault) (e : env) (o a : N),
+  (forall hist, wf_store (e hist)) -> 1 <= o -> o < two64 -> a < two64 ->
+  let r := fst (handle_d f e (ROrigin o a)) in
+  r = NotFound \/ r = Reset \/
+  exists l S, r = Ok l /\ (S = e [KHasAt] \/ S = e [KHasAt; KHead])
+    /\ (1 <= length l)%nat /\ N.of_nat (length l) <= a
+    /\ (forall j, (j < length l)%nat ->
+          exists h, nth_error l j = Some h /\ get_height S (o + N.of_nat j) = Some h
+                    /\ h_height h = o + N.of_nat j /\ In h (all_hdrs S))
+    /\ (N.of_nat (length l) < a ->
+          exists hd, head_of (e [KHasAt]) = Some hd /\ o + N.of_nat (length l) - 1 = h_height hd).
+Proof. exact origin_reply_shape_d. Qed.
+
+(** every header of an OK reply was stored in the content one of the calls saw (any contents, any request) *)
+Theorem C10_changing_store_only_true_data : forall (f : fault) (e : env) (rq : req) (l : list hdr),
+  fst (handle_d f e rq) = Ok l -> l <> [] /\ exists hist, forall x, In x l -> In x (all_hdrs (e hist)).
+Proof. exact only_true_data_d. Qed.
+
 (** ** non-vacuity: a pruned store (tail 5, head 8), all reply kinds and the boundary requests *)
 Definition ex_h (n : N) : hdr := Hdr false 1 n 0%Z (100 + n) (100 + n - 1) true.
 Definition ex_st : store := Store [ex_h 5; ex_h 6; ex_h 7; ex_h 8] [ex_h 11].
@@ -136,6 +192,23 @@ Example C10_ex_replies :
   /\ handle FErr ex_st (ROrigin 6 2) = (Reset, [CHasAt 7; CGetRange 6 8 [] 0]).
 Proof. vm_compute. repeat split; reflexivity. Qed.
 
+(** the head advances from 8 to 12 while (origin 8, amount 2) is served: right after HasAt
+    (the window of the seeded defect: the answer is NOT_FOUND, never a grown range), or
+    right after Head (the clamp stays at the head that was read) *)
+Definition ex_st2 : store := Store [ex_h 5; ex_h 6; ex_h 7; ex_h 8; ex_h 9; ex_h 10; ex_h 11; ex_h 12] [].
+Definition ex_env (hook : ckind) : env :=
+  fun hist => if existsb (fun k => match k, hook with KHasAt, KHasAt | KHead, KHead => true | _, _ => false end) hist
+              then ex_st2 else ex_st.
+Example C10_ex_changing :
+  (forall hook hist, wf_store (ex_env hook hist))
+  /\ handle_d FNone (ex_env KHasAt) (ROrigin 8 2) = (NotFound, [CHasAt 9; CHead])
+  /\ handle_d FNone (ex_env KHead) (ROrigin 8 2) = (Ok [ex_h 8], [CHasAt 9; CHead; CGetRange 8 9 [8] 1])
+  /\ handle_d FNone (ex_env KHasAt) (ROrigin 6 3) = (Ok [ex_h 6; ex_h 7; ex_h 8], [CHasAt 8; CGetRange 6 9 [8; 7; 6] 3]).
+Proof.
+  split; [|vm_compute; repeat split; reflexivity].
+  intros hook hist. unfold ex_env. destruct (existsb _ hist); vm_compute; reflexivity.
+Qed.
+
 Print Assumptions C10_total.
 Print Assumptions C10_bounded_calls.
 Print Assumptions C10_bounded_reads.
@@ -147,3 +220,9 @@ Print Assumptions C10_empty_request.
 Print Assumptions C10_hash_request.
 Print Assumptions C10_only_true_data.
 Print Assumptions C10_store_failure_refused.
+Print Assumptions C10_quiescent_is_instance.
+Print Assumptions C10_changing_store_total.
+Print Assumptions C10_changing_store_bounded_calls.
+Print Assumptions C10_changing_store_bounded_reads.
+Print Assumptions C10_changing_store_reply_shape.
+Print Assumptions C10_changing_store_only_true_data.
